@@ -63,6 +63,8 @@ type bmWorld struct {
 	plan    map[int][]string // per request: behaviours of successive nodes
 	planIdx map[int]int
 	wg      sync.WaitGroup
+
+	slowCancel bool
 }
 
 func (w *bmWorld) log(e bmEvent) {
@@ -90,8 +92,13 @@ func (n *bmNode) CancelBlockRequest(ctx context.Context, hash bitcoin.Hash32) bo
 	n.mu.Unlock()
 	n.w.mu.Lock()
 	n.w.log(bmEvent{Ev: "cancel", R: n.r, D: n.d, Answer: started})
+	slow := n.w.rng.Intn(3) == 0 || n.w.slowCancel
 	n.w.mu.Unlock()
 	n.once.Do(func() { close(n.cancel) })
+	if slow {
+		// the node takes a moment to answer: other downloaders finish meanwhile
+		time.Sleep(time.Duration(200+n.d*150) * time.Microsecond)
+	}
 	return started
 }
 
@@ -186,7 +193,13 @@ func (w *bmWorld) RequestBlock(ctx context.Context, hash bitcoin.Hash32, handler
 func bmgOne(id int, seed int64) bmTrace {
 	rng := rand.New(rand.NewSource(seed))
 	nreq := 1 + rng.Intn(3)
-	conc := 1 + rng.Intn(2)
+	conc := 1 + rng.Intn(4)
+	// every fifth scenario: as many hanging downloads as allowed, aborted while all are listed, nodes
+	// slow to answer the cancel (downloaders leave the list while the manager is still cancelling)
+	crowd := id%5 == 0
+	if crowd {
+		conc = 3 + rng.Intn(2)
+	}
 	w := &bmWorld{rng: rng, byHash: map[bitcoin.Hash32]int{}, plan: map[int][]string{}, planIdx: map[int]int{}}
 	w.ctx = logger.ContextWithNoLogger(context.Background())
 	for r := 1; r <= nreq; r++ {
@@ -206,11 +219,18 @@ func bmgOne(id int, seed int64) bmTrace {
 		// behaviours of the nodes that will be asked for this block, the last one serves
 		kinds := []string{"serve", "hang", "drop", "badroot", "cutmid", "refuse", "serve", "hang"}
 		var plan []string
-		for k := 0; k < rng.Intn(4); k++ {
+		for k := 0; k < rng.Intn(6); k++ {
 			plan = append(plan, kinds[rng.Intn(len(kinds))])
+		}
+		if rng.Intn(3) == 0 {
+			plan = []string{"hang", "hang", "hang", "hang", "hang"}[:1+rng.Intn(5)]
+		}
+		if crowd {
+			plan = []string{"hang", "hang", "hang", "hang", "hang", "hang"}
 		}
 		w.plan[r] = plan
 	}
+	w.slowCancel = crowd
 	proc := newCountingProcessor()
 	m := bitcoin_reader.NewBlockManager(bitcoin_reader.NewMockBlockTxManager(), w, conc, 4*time.Millisecond)
 	intr := make(chan interface{})
@@ -238,6 +258,9 @@ func bmgOne(id int, seed int64) bmTrace {
 		}
 		if rng.Intn(4) == 0 || (allHang && rng.Intn(2) == 0) {
 			abortAfter = time.Duration(1+rng.Intn(12)) * time.Millisecond
+		}
+		if crowd {
+			abortAfter = time.Duration(4*conc+2+rng.Intn(6)) * time.Millisecond
 		}
 		// a request that is still pending after a while (every node hangs) is aborted by the requester,
 		// as block synchronisation does for orphaned blocks
